@@ -91,6 +91,26 @@ def shard(s):
         pat = [((d + d[::-1]) * (N // len(d) + 1))[:N], ("++-0-" * N)[:N], "+" * (N // 3) + "0" * (N // 3) + "-" * (N - 2 * (N // 3)),
                ("0" * 7 + "+-") * (N // 9 + 1)][k][:N]
         _consume(acc, R.spell_rotating(pat, k), "rot")
+    elif kind == "SPARSE":
+        # sparsely charged chains (below 5 % charged residues) of every length 20..s[1]: two to four charges 1..7 residues apart
+        # (all sign combinations) somewhere in a neutral linker - the regime in which a sequence is mostly uncharged blobs
+        import itertools as _it
+        for N in range(20, s[1] + 1, 1 if s[1] <= 130 else 7):
+            for gi, gaps in enumerate(((1,), (2,), (3,), (4,), (5,), (6,), (7,), (1, 1), (2, 3), (5, 1), (3, 3, 3))):
+                for signs in _it.product("+-", repeat=len(gaps) + 1):
+                    off = (N * (gi + 2)) // 14
+                    a = ["0"] * N
+                    p = off
+                    ok = True
+                    for k, sg in enumerate(signs):
+                        if p >= N:
+                            ok = False
+                            break
+                        a[p] = sg
+                        if k < len(gaps):
+                            p += gaps[k]
+                    if ok:
+                        _consume(acc, R.spell_rotating("".join(a), N), "rot")
     elif kind == "DB":
         for pat in spaces.window_complete_chunks(R.SYM, 6, s[1]):
             _consume(acc, R.spell_rotating(pat, len(pat)), "rot")
@@ -111,6 +131,7 @@ def run(tier, seed, t0):
     LN = (64, 128, 200, 256) if tier == "quick" else (64, 127, 128, 129, 200, 256, 300, 400, 512, 700, 1000)
     shards += [("LONG", N) for N in LN]
     shards += [("PAD",)]
+    shards += [("SPARSE", 120 if tier == "quick" else 400)]
     shards = [("XXL", N, k) for N in ((4101, 4500, 8200) if tier == "quick" else (4096, 4101, 4102, 4500, 8197, 8200, 12345, 16390)) for k in range(4)] + shards
     shards += [("DB", (L_,)) for L_ in ((23, 47, 97) if tier == "quick" else (17, 23, 31, 47, 61, 97, 150, 301))]
     shards += [("ENDS", N) for N in ((1100,) if tier == "quick" else (1001, 1100, 1500))]
@@ -121,7 +142,7 @@ def run(tier, seed, t0):
         PROP, tier, seed, acc, t0,
         rule="every charge pattern over {+,-,0} of length 1..%d (K/E/G spelling), every pattern of length 1..%d in 16 "
              "covering spellings + 1 rotating spelling (all 20 residues occur), every pattern of length 5..%d with <=3 "
-             "runs, and a structured family of long patterns (homopolymers, 2/3-block, periodic) at lengths %s, four patterns at 4101/4500/8200 residues (thorough: to 16390), and EVERY length 1..%d in strictly ascending and descending order in a freshly imported package (5 patterns per length), and shared-core families (6 irregular cores x every combination of 0/1/3/8 neutral residues on either side, in a fresh package); each is one real SequenceParameters(seq).get_delta() call compared with exact Fraction evaluation "
+             "runs, and a structured family of long patterns (homopolymers, 2/3-block, periodic) at lengths %s, four patterns at 4101/4500/8200 residues (thorough: to 16390), and EVERY length 1..%d in strictly ascending and descending order in a freshly imported package (5 patterns per length), sparsely charged linkers of every length 20..120 (thorough 400) with two to four charges 1..7 residues apart in every sign combination, and shared-core families (6 irregular cores x every combination of 0/1/3/8 neutral residues on either side, in a fresh package); each is one real SequenceParameters(seq).get_delta() call compared with exact Fraction evaluation "
              "of the definition; non-trivial = reference delta > 0; outcomes = distinct reference delta values" % (L, L2, RN, list(LN), SC),
         bounds={"L_base": L, "L_spellings": L2, "runlength_N": RN, "runs": 3, "tolerance_abs": TOL},
         assumptions=["reference model vmc/refmodel/charge.py states the property's definition; residue charge classes "
